@@ -303,7 +303,10 @@ def s_adapt(env):
     last, loss, J, D, R = strategy_inputs(env)
     q = quality(T, last, loss, J, D, R)
     lam = pg['damping']
+    J_0, D_0, R_0 = J.clone(), D.clone(), R.clone()
     s.update(pg, last=last, loss=loss, J=J, D=D, R=R)
+    # frame: the strategy reads J, D, R (LM re-reads the residual for the right-hand side of the next trial) - it must not write them
+    env.eq('update leaves J untouched', J, J_0); env.eq('update leaves D untouched', D, D_0); env.eq('update leaves R untouched', R, R_0)
     if bool(q > hp['high']): new = lam * down
     elif bool(q > hp['low']): new = lam
     else: new = lam * up
@@ -326,7 +329,10 @@ def s_tr(env):
     pg['damping'] = 1 / rad; pg['down'] = dcur
     last, loss, J, D, R = strategy_inputs(env)
     q = quality(T, last, loss, J, D, R)
+    J_0, D_0, R_0 = J.clone(), D.clone(), R.clone()
     s.update(pg, last=last, loss=loss, J=J, D=D, R=R)
+    # frame: the strategy reads J, D, R (LM re-reads the residual for the right-hand side of the next trial) - it must not write them
+    env.eq('update leaves J untouched', J, J_0); env.eq('update leaves D untouched', D, D_0); env.eq('update leaves R untouched', R, R_0)
     if bool(q > hp['high']): nr, nd = up * rad, down
     elif bool(q > hp['low']): nr, nd = rad, down
     else: nr, nd = rad * dcur, dcur * factor
